@@ -26,6 +26,7 @@ import (
 // Output: reqs=<T|ver|nonce|names|err …>;… (in send order) node=<ok|BAD> unread=<n> streams=<n>
 // node=ok iff on every stream exactly the first request carried the node.
 type adsStream struct {
+	ctx    context.Context
 	t      *adsTransport
 	id     int
 	in     chan []byte
@@ -79,6 +80,8 @@ func (s *adsStream) Recv() ([]byte, error) {
 		return b, nil
 	case <-s.broken:
 		return nil, errors.New("stream broken")
+	case <-s.ctx.Done(): // the real transport's stream ends when the ADS stream is stopped
+		return nil, s.ctx.Err()
 	}
 }
 
@@ -96,16 +99,20 @@ func (t *adsTransport) NewStream(ctx context.Context, _ string) (clients.Stream,
 		return nil, errors.New("transport down")
 	}
 	t.streams++
-	t.cur = &adsStream{t: t, id: t.streams, in: make(chan []byte, 64), broken: make(chan struct{})}
+	t.cur = &adsStream{ctx: ctx, t: t, id: t.streams, in: make(chan []byte, 64), broken: make(chan struct{})}
 	return t.cur, nil
 }
 func (t *adsTransport) Close() {}
 
+type adsVerdict struct {
+	names   []string
+	verdict string
+}
+
 type adsCase struct {
 	t       *adsTransport
 	a       *xdsclient.VerifADS
-	nextV   string
-	nextN   []string
+	verdicts []adsVerdict // per injected response, consumed in order by OnResponse
 	pending []func()
 	types   map[string]xdsclient.ResourceType
 	evs     []string
@@ -118,7 +125,12 @@ func init() {
 		h := &xdsclient.VerifADSHandler{
 			OnResponse: func(url, ver string, onDone func()) ([]string, string) {
 				c.pending = append(c.pending, onDone)
-				return c.nextN, c.nextV
+				if len(c.verdicts) == 0 {
+					return nil, "ack"
+				}
+				v := c.verdicts[0]
+				c.verdicts = c.verdicts[1:]
+				return v.names, v.verdict
 			},
 			OnStreamError: func(after bool) { c.evs = append(c.evs, fmt.Sprintf("streamerr(afterRecv=%v)", after)) },
 			OnWatchExpiry: func(url, name string) {}, // watch expiry belongs to C43
@@ -168,11 +180,11 @@ func (c *adsCase) Op(f []string) string {
 			return "nostream"
 		default:
 		}
-		c.nextV = f[4]
-		c.nextN = nil
+		v := adsVerdict{verdict: f[4]}
 		if f[5] != "-" {
-			c.nextN = strings.Split(f[5], "+")
+			v.names = strings.Split(f[5], "+")
 		}
+		c.verdicts = append(c.verdicts, v)
 		ver, nonce := f[2], f[3]
 		c.t.unread++
 		c.t.cur.in <- xdsclient.VerifEncodeResponse(f[1], ver, nonce)
@@ -190,6 +202,7 @@ func (c *adsCase) Op(f []string) string {
 				close(c.t.cur.broken)
 				// unread messages die with the stream
 				c.t.unread -= len(c.t.cur.in)
+				c.verdicts = c.verdicts[:len(c.verdicts)-len(c.t.cur.in)]
 			}
 		}
 	case "sleep":
